@@ -42,7 +42,7 @@ type c17plan struct {
 }
 
 func c17(c *wk.Ctx) {
-	c.Note("rule", "each plan: one endpoint over a harness stream, 2-12 goroutines released by a barrier doing PRNG-chosen MakeHandler / AddHandler / ReceiveAny (filters: never/always/pattern x keep/self-remove after n, with scheduling yields inside the filter), RemoveHandler (live, stale, unknown, negative ids), peer frames, then local Close() or peer close, possibly concurrent with further operations; in a quarter of the plans the stream's Close reports an error although it closes. Oracle at quiescence (decided by the goroutine-state quiescence detector, not a timeout): every handler whose MakeHandler returned before shutdown started has closer==1 and queue closed once; others <=1; no filter match after the closer ran; RemoveHandler of unknown/removed ids returns an error; an id is never handed out while its previous holder is still open; no panic (child crash), no deadlock; stream blocked-reply = the connection is shut down (locally or by the peer) while the endpoint is blocked writing a 'consumer blocked' reply to a peer that does not read (bounded harness stream): the shutdown must complete and every handler be closed once. Stream register-burst = 12 rounds per case of 4-16 goroutines spinning on a barrier and then registering 1-4 handlers each on a fresh endpoint (some earlier handlers removed first, so that freed slots are reused): identifiers held at the same time are pairwise distinct and Close() runs every close callback once. Stream unknown-ids = with 0-25 handlers registered and a few removed, RemoveHandler of every id from -3 to n+24 that is not held returns an error, does not panic and closes nothing. Distinct non-trivial = distinct plans in which at least two goroutines operated on the handler table and shutdown closed at least one handler.")
+	c.Note("rule", "each plan: one endpoint over a harness stream, 2-12 goroutines released by a barrier doing PRNG-chosen MakeHandler / AddHandler / ReceiveAny (filters: never/always/pattern x keep/self-remove after n, with scheduling yields inside the filter), RemoveHandler (live, stale, unknown, negative ids), peer frames, then local Close() or peer close, possibly concurrent with further operations; in a quarter of the plans the stream's Close reports an error although it closes. Oracle at quiescence (decided by the goroutine-state quiescence detector, not a timeout): every handler whose MakeHandler returned before shutdown started has closer==1 and queue closed once; others <=1; no filter match after the closer ran; RemoveHandler of unknown/removed ids returns an error; an id is never handed out while its previous holder is still open; no panic (child crash), no deadlock; stream blocked-reply = the connection is shut down (locally or by the peer) while the endpoint is blocked writing a 'consumer blocked' reply to a peer that does not read (bounded harness stream): the shutdown must complete and every handler be closed once; in half of these plans other goroutines first remove the handlers (some of which leave by themselves with the message being refused) and register new ones while the write is blocked, then the peer resumes reading. Stream register-burst = 12 rounds per case of 4-16 goroutines spinning on a barrier and then registering 1-4 handlers each on a fresh endpoint (some earlier handlers removed first, so that freed slots are reused): identifiers held at the same time are pairwise distinct and Close() runs every close callback once. Stream unknown-ids = with 0-25 handlers registered and a few removed, RemoveHandler of every id from -3 to n+24 that is not held returns an error, does not panic and closes nothing. Distinct non-trivial = distinct plans in which at least two goroutines operated on the handler table and shutdown closed at least one handler.")
 	c.Cases("plan", c.Pick(8000, 600000), func(i int, rng *rand.Rand) { c17one(c, i, rng) })
 	c.Cases("unknown-ids", c.Pick(300, 20000), func(i int, rng *rand.Rand) { c17unknown(c, i, rng) })
 	c.Cases("register-burst", c.Pick(150, 10000), func(i int, rng *rand.Rand) { c17burst(c, i, rng) })
@@ -243,15 +243,19 @@ func c17blocked(c *wk.Ctx, i int, rng *rand.Rand) {
 	type hh struct {
 		closer, qclosed int32
 		queue           chan *qnet.Message
+		id              int
+		seen            int32
 	}
+	// variant "operations": while the endpoint is blocked writing the refusal, other goroutines remove the
+	// handlers (some of which remove themselves with the very message being refused: keep = false once
+	// their one-slot queue is full) and register new ones; then the peer starts reading, the operations
+	// complete and the connection is closed. Every handler must be closed exactly once.
+	opsVariant := rng.Intn(2) == 0
 	n := 1 + rng.Intn(3)
 	hs := make([]*hh, n)
 	release := make(chan struct{})
 	var wg sync.WaitGroup
-	for k := range hs {
-		h := &hh{queue: make(chan *qnet.Message, 1)}
-		hs[k] = h
-		ep.MakeHandler(func(*qnet.Header) (bool, bool) { return true, true }, h.queue, func(error) { atomic.AddInt32(&h.closer, 1) })
+	consume := func(h *hh) {
 		wg.Add(1)
 		go func() {
 			defer wg.Done()
@@ -261,6 +265,16 @@ func c17blocked(c *wk.Ctx, i int, rng *rand.Rand) {
 			atomic.AddInt32(&h.qclosed, 1)
 		}()
 	}
+	for k := range hs {
+		h := &hh{queue: make(chan *qnet.Message, 1)}
+		hs[k] = h
+		keepFor := int32(1 << 30)
+		if opsVariant && rng.Intn(2) == 0 {
+			keepFor = int32(1 + rng.Intn(2)) // leaves by itself with the 2nd / 3rd message it selects
+		}
+		h.id = ep.MakeHandler(func(*qnet.Header) (bool, bool) { return true, atomic.AddInt32(&h.seen, 1) <= keepFor }, h.queue, func(error) { atomic.AddInt32(&h.closer, 1) })
+		consume(h)
+	}
 	frames := 3 + rng.Intn(6)
 	for k := 0; k < frames; k++ {
 		b.Write(rc.Frame(rc.Header{Magic: rc.Magic, ID: uint32(k), Type: qnet.Call, Service: 1, Object: 1, Action: 7}, nil))
@@ -269,6 +283,58 @@ func c17blocked(c *wk.Ctx, i int, rng *rand.Rand) {
 	stuck.WaitFunc(func() bool { return atomic.LoadInt64(&a.BlockedWrites) > 0 }, &progress, 20*time.Second)
 	blocked := atomic.LoadInt64(&a.BlockedWrites) > 0
 	how := []string{"local Close", "peer close"}[rng.Intn(2)]
+	detail := map[string]interface{}{"handlers": n, "frames": frames, "max_buffer": a.MaxBuffer, "shutdown": how, "reply_write_blocked": blocked, "operations_while_replying": opsVariant}
+	if opsVariant {
+		var owg sync.WaitGroup
+		var lateMu sync.Mutex
+		for _, h := range hs {
+			if rng.Intn(4) == 0 {
+				continue
+			}
+			owg.Add(1)
+			go func(h *hh) {
+				defer owg.Done()
+				ep.RemoveHandler(h.id) // succeeds, or fails because the handler left by itself: not judged
+				atomic.AddInt64(&progress, 1)
+			}(h)
+		}
+		for k := rng.Intn(3); k > 0; k-- {
+			owg.Add(1)
+			go func() {
+				defer owg.Done()
+				h := &hh{queue: make(chan *qnet.Message, 1)}
+				h.id = ep.MakeHandler(func(*qnet.Header) (bool, bool) { return false, true }, h.queue, func(error) { atomic.AddInt32(&h.closer, 1) })
+				lateMu.Lock()
+				hs = append(hs, h)
+				lateMu.Unlock()
+				consume(h)
+				atomic.AddInt64(&progress, 1)
+			}()
+		}
+		// give the operations a chance to run into the blocked endpoint, then let the peer read
+		for y := rng.Intn(200); y > 0; y-- {
+			runtime.Gosched()
+		}
+		go func() {
+			buf := make([]byte, 4096)
+			for {
+				if _, err := b.Read(buf); err != nil {
+					return
+				}
+			}
+		}()
+		odone := make(chan struct{})
+		go func() { owg.Wait(); close(odone) }()
+		if v, dump := stuck.Wait(odone, &progress, 2*time.Minute); v == stuck.Stuck {
+			detail["dump"] = clipDump(dump)
+			c.Viol("blocked-reply", i, "deadlock=operations-while-replying/"+wk.PanicSite(dump), "RemoveHandler / MakeHandler never returned although the peer resumed reading", detail)
+			return
+		} else if v == stuck.Watchdog {
+			c.Inconclusive("blocked-reply", i, "watchdog")
+			return
+		}
+		c.Count("blocked_reply_plans_with_operations_during_the_write", 1)
+	}
 	done := make(chan struct{})
 	go func() {
 		if how == "local Close" {
@@ -278,7 +344,6 @@ func c17blocked(c *wk.Ctx, i int, rng *rand.Rand) {
 		}
 		close(done)
 	}()
-	detail := map[string]interface{}{"handlers": n, "frames": frames, "max_buffer": a.MaxBuffer, "shutdown": how, "reply_write_blocked": blocked}
 	v, dump := stuck.Wait(done, &progress, 2*time.Minute)
 	if v == stuck.Stuck {
 		detail["dump"] = clipDump(dump)
